@@ -190,11 +190,10 @@ func (n *node) GetModuleByPrefix(
 	}
 	mname, ok := getPfxName(root, pfx)
 	if !ok {
-		if !skipUnknown {
-			return nil, fmt.Errorf("unknown import %s", pfx)
-		} else {
-			return nil, nil
-		}
+		// skipUnknown is about modules that are imported but not supplied.
+		// A prefix that no import statement declares is an error of the
+		// text itself (and no caller expects neither a module nor an error).
+		return nil, fmt.Errorf("unknown import %s", pfx)
 	}
 
 	r, ok := modules[mname]
